@@ -25,7 +25,7 @@ CHECKS = {
                         "ranks for every key. MutableTree.Rollback(), DeleteVersion(s) and IterateRangeInclusive are not exercised: no non-test caller "
                         "in this fork uses them (pruning is commented out in iavl.Store.Commit); rollback is exercised the way rootmulti.RollbackVersion "
                         "does it (fresh tree, LoadVersion, LoadVersionForOverwriting)."),
-    "C05": c("storea", "TestC05", dict(checks=500, timeout=400), dict(checks=2000, shards=14, timeout=1500),
+    "C05": c("storea", "TestC05", dict(checks=500, timeout=400), dict(checks=6000, shards=14, timeout=1500),
              technique="property-based testing of rootmulti/IAVL query proofs: completeness against harness-recorded commit hashes and a map model, "
                        "soundness by exhaustive structured single-field alteration of the decoded proof ops plus adversarial constructions",
              design_ref="DESIGN.md §7 C05",
